@@ -20,7 +20,7 @@ RULE = (
     "stricter.  Non-trivial = the first-drift indices of at least two settings differ; distinct = (family, parameters, input digest)."
 )
 ASSUMPTIONS = [
-    "thresholds are positive; Page-Hinkley is driven with positive-valued streams (its threshold is relative to the running mean, so a "
+    "the boundary value 0 is included where it is a valid setting (alpha / significance / scale of 0); Page-Hinkley is driven with positive-valued streams (its threshold is relative to the running mean, so a "
     "negative mean reverses the meaning of 'larger threshold' - outside the documented use)",
     "both runs see identical random draws (seed schedule)",
 ]
@@ -31,17 +31,17 @@ FAMILIES = {
     "ADWINAccuracy.delta": ("ADWINAccuracy", "delta", [1.0, 0.3, 0.05, 0.002]),
     "CUSUM.threshold": ("CUSUM", "threshold", [1.0, 2.0, 5.0, 12.0]),
     "PageHinkley.threshold": ("PageHinkley", "threshold", [0.05, 0.2, 1.0, 4.0]),
-    "DDM.drift_scale": ("DDM", "drift_scale", [2.0, 2.5, 3.0, 4.0]),
-    "EDDM.drift_thresh": ("EDDM", "drift_thresh", [0.9, 0.8, 0.6, 0.4]),
-    "STEPD.alpha_drift": ("STEPD", "alpha_drift", [0.05, 0.01, 0.003, 0.0001]),
+    "DDM.drift_scale": ("DDM", "drift_scale", [0.0, 2.0, 2.5, 3.0, 4.0]),
+    "EDDM.drift_thresh": ("EDDM", "drift_thresh", [0.9, 0.8, 0.6, 0.4, 0.0]),
+    "STEPD.alpha_drift": ("STEPD", "alpha_drift", [0.05, 0.01, 0.003, 0.0001, 0.0]),
     "LinearFourRates.detect_level": ("LinearFourRates", "detect_level", [0.2, 0.05, 0.02, 0.005]),
-    "KdqTreeStreaming.alpha": ("KdqTreeStreaming", "alpha", [0.5, 0.2, 0.05, 0.01]),
-    "KdqTreeBatch.alpha": ("KdqTreeBatch", "alpha", [0.5, 0.2, 0.05, 0.01]),
-    "NNDVI.alpha": ("NNDVI", "alpha", [0.4, 0.2, 0.05, 0.01]),
-    "HDDDM.tstat": ("HDDDM", "significance", [0.3, 0.1, 0.05, 0.01]),
-    "HDDDM.stdev": ("HDDDM", "significance", [0.2, 0.5, 1.0, 2.0]),
-    "CDBD.tstat": ("CDBD", "significance", [0.3, 0.1, 0.05, 0.01]),
-    "CDBD.stdev": ("CDBD", "significance", [0.2, 0.5, 1.0, 2.0]),
+    "KdqTreeStreaming.alpha": ("KdqTreeStreaming", "alpha", [0.5, 0.2, 0.05, 0.01, 0.0]),
+    "KdqTreeBatch.alpha": ("KdqTreeBatch", "alpha", [0.5, 0.2, 0.05, 0.01, 0.0]),
+    "NNDVI.alpha": ("NNDVI", "alpha", [0.4, 0.2, 0.05, 0.01, 0.0]),
+    "HDDDM.tstat": ("HDDDM", "significance", [0.3, 0.1, 0.05, 0.01, 0.0]),
+    "HDDDM.stdev": ("HDDDM", "significance", [0.0, 0.2, 0.5, 1.0, 2.0]),
+    "CDBD.tstat": ("CDBD", "significance", [0.3, 0.1, 0.05, 0.01, 0.0]),
+    "CDBD.stdev": ("CDBD", "significance", [0.0, 0.2, 0.5, 1.0, 2.0]),
 }
 # warning thresholds, from strict to loose
 WARN = {
